@@ -1,6 +1,6 @@
 (* Props/C05.v — C05: the HSMS session follows the E37 connect/select state model for every history.
    Theorems only; the model is Model/HsmsSession.v (over the regenerated connection machine), the reference Spec/E37Session.v. *)
-From SG Require Import Base.Prelude Spec.E37Session Model.StateMachine Model.HsmsSession Gen.Machines Proofs.SessionProofs.
+From SG Require Import Base.Prelude Spec.E37Session Model.StateMachine Model.HsmsSession Gen.Machines Proofs.SessionProofs Gen.HsmsCtrl Proofs.HsmsCtrlProofs.
 Open Scope Z_scope.
 
 (* state: after every history on which E37 prescribes each step, the session is in the prescribed state and has
@@ -73,3 +73,21 @@ Proof. split; [repeat constructor; cbn; discriminate|]. eexists; eexists. split;
 
 Example C05_reachable_selected : reachable (fst (hs_run hs0 [EvConnected; EvCtrl 1 8 0])) /\ abs_state (fst (hs_run hs0 [EvConnected; EvCtrl 1 8 0])) = Selected.
 Proof. split; [eexists; reflexivity|vm_compute; reflexivity]. Qed.
+
+(* The control-message handlers are tied to the source by a theorem: HsmsProtocol.__handle_hsms_requests and the five handlers it calls are
+   translated statement by statement on every run (harness/gen_hsmsctrl.py -> Gen/HsmsCtrl.v) into the list of things the endpoint does with an
+   inbound control message - send the response of the matching type, reject, request a transition of the connection state machine, hand the
+   message to the requester - as a function of the message's SType and status byte, the connection state, whether the endpoint is closing and
+   what is open under the message's system bytes.  For every control message, in every state, the model's step is that list carried out; the
+   refinement theorems above are therefore about the handlers as the code has them now. *)
+Theorem C05_control_code_is_model : forall s stype system status,
+  hs_step s (EvCtrl stype system status) =
+  run_ctl s system (hsms_on_control stype status (cur (h_sm s)) (h_closing s) (queued_as s system) (queued s system)).
+Proof. exact control_code_is_model. Qed.
+Print Assumptions C05_control_code_is_model.
+Example C05_control_code_sample :
+  hsms_on_control 1 0 connection_CONNECTED_NOT_SELECTED false (fun _ => false) false = [CSend 2; CTransition "select"%string] /\
+  hsms_on_control 2 0 connection_CONNECTED_NOT_SELECTED false (fun t => t =? 1) true = [CTransition "select"%string; CResolve] /\
+  hsms_on_control 2 0 connection_CONNECTED_NOT_SELECTED false (fun t => t =? 5) true = [] /\
+  hsms_on_control 5 0 connection_CONNECTED_SELECTED true (fun _ => false) false = [CReject 4] /\ hsms_on_control 9 0 connection_CONNECTED_SELECTED false (fun _ => false) false = [].
+Proof. repeat split; reflexivity. Qed.
